@@ -23,6 +23,8 @@ const (
 	shNone
 	shIface // T is an interface type (Both); values are *P or a nil interface
 	shPV    // T is *V: a pointer to a type whose marshalers have value receivers
+	shStr   // T is a string-kinded type
+	shBytes // T is a slice-kinded type
 	numShapes
 )
 
@@ -37,7 +39,7 @@ type Both interface {
 	json.Unmarshaler
 }
 
-var shapeNames = [...]string{"V(value marshalers, pointer unmarshalers)", "*P(pointer type)", "OnlyM", "OnlyU", "None", "Both(interface-typed T holding *P or nil)", "*V(pointer to value-receiver type)"}
+var shapeNames = [...]string{"V(value marshalers, pointer unmarshalers)", "*P(pointer type)", "OnlyM", "OnlyU", "None", "Both(interface-typed T holding *P or nil)", "*V(pointer to value-receiver type)", "Str(string kind)", "Bytes(slice kind)"}
 var helperNames = [...]string{"MarshalText", "UnmarshalText", "MarshalBinary", "UnmarshalBinary", "MarshalJSON", "UnmarshalJSON"}
 
 // listSpec is one helper invocation.
@@ -55,7 +57,7 @@ func (ls listSpec) helper() string { return helperNames[ls.enc*2+ls.dir] }
 // hasInterface: does the shape implement the interface this helper needs?
 func (ls listSpec) hasInterface() bool {
 	switch ls.shape {
-	case shV, shP, shIface, shPV:
+	case shV, shP, shIface, shPV, shStr, shBytes:
 		return true
 	case shOnlyM:
 		return ls.dir == dirMarshal
@@ -401,6 +403,10 @@ func execList(ls listSpec, keepMsgs bool) (l *listRun, escaped interface{}) {
 			runEnc(l, ls, func(i int, c caseSpec) OnlyU { return OnlyU{i + 1, c.payload} })
 		case shNone:
 			runEnc(l, ls, func(i int, c caseSpec) None { return None{i + 1, c.payload} })
+		case shStr:
+			runEnc(l, ls, func(i int, c caseSpec) Str { return Str(kindValue(i+1, c.payload)) })
+		case shBytes:
+			runEnc(l, ls, func(i int, c caseSpec) Bytes { return Bytes(kindValue(i+1, c.payload)) })
 		case shPV:
 			runEnc(l, ls, func(i int, c caseSpec) *V {
 				if c.beh == bNilReceiver || (c.nilValue && ls.dir == dirUnmarshal) {
@@ -513,7 +519,7 @@ func normalise(ls *listSpec) {
 		if c.adjust {
 			c.before = hPass
 		}
-		if c.wildcard && (ls.typeHelper != 2 || ls.dir != dirUnmarshal || c.pred != pNone || c.nilValue || c.nilIface || c.adjust) {
+		if c.wildcard && (ls.shape == shStr || ls.shape == shBytes || ls.typeHelper != 2 || ls.dir != dirUnmarshal || c.pred != pNone || c.nilValue || c.nilIface || c.adjust) {
 			c.wildcard = false
 		}
 		if c.nilIface {
